@@ -109,22 +109,31 @@ def run(chk):
            line=init.node.lineno)
 
     gt = src.func(RK, "RungeKutta.get_tableau")
+    # the roles (matrix, weights, nodes, stage count, orders) are the positions of the returned structure ([a, b, c], Nstage, order); local names are free
+    rets = [n for n in ast.walk(gt.node) if isinstance(n, ast.Return) and n.value is not None]
+    rv = rets[0].value if len(rets) == 1 else None
+    if not (isinstance(rv, ast.Tuple) and len(rv.elts) == 3 and isinstance(rv.elts[0], (ast.List, ast.Tuple)) and len(rv.elts[0].elts) == 3
+            and all(isinstance(x, ast.Name) for x in list(rv.elts[0].elts) + list(rv.elts[1:]))):
+        raise AnalysisError(f"{gt.where}: return value is not ([a, b, c], Nstage, order) over plain names: {unparse(rv) if rv is not None else rets}")
+    NA, NB, NC = (x.id for x in rv.elts[0].elts)
+    NS, NO = rv.elts[1].id, rv.elts[2].id
+    ROLES = (NA, NB, NC, NS, NO)
     nconds = 0
     sharp = {}
     for m in method_list:
-        env = partial_eval_dispatch(gt.node, "self.method", m, ("a", "b", "c", "Nstage", "order"))
+        env = partial_eval_dispatch(gt.node, "self.method", m, ROLES)
         where = gt.where
         if env.get("__assert_false__"):
             chk.ob("dispatch-total", m, False, where, "assert False / raise reached", "tableau assignment",
                    detail=f"method {m!r} is in method_list but get_tableau has no branch for it", line=gt.node.lineno)
             continue
-        missing = [k for k in ("a", "b", "c", "Nstage", "order") if k not in env]
-        unk = [k for k in ("a", "b", "c", "Nstage", "order") if isinstance(env.get(k), tuple) and env[k] and env[k][0] == "UNK"]
+        missing = [k for k in ROLES if k not in env]
+        unk = [k for k in ROLES if isinstance(env.get(k), tuple) and env[k] and env[k][0] == "UNK"]
         if missing or unk:
             raise AnalysisError(f"get_tableau[{m}]: cannot fold {missing + unk}: "
                                 f"{[env.get(k) for k in unk]}")
         chk.ob("dispatch-total", m, True, where, "branch assigns a, b, c, Nstage, order", "")
-        a, b, c, s, order = env["a"], env["b"], env["c"], env["Nstage"], env["order"]
+        a, b, c, s, order = env[NA], env[NB], env[NC], env[NS], env[NO]
         try:
             sa, sb, sc = shape(a), shape(b), shape(c)
         except NotConstant as e:
@@ -207,7 +216,7 @@ def run(chk):
     # ------------------------------------------------ layout producer / consumers
     ret = [n for n in ast.walk(gt.node) if isinstance(n, ast.Return)]
     rtxt = [unparse(r.value).replace(" ", "") for r in ret]
-    chk.ob("tableau-layout", "get_tableau.return", rtxt == ["([a,b,c],Nstage,order)"], gt.where, rtxt, "([a, b, c], Nstage, order)")
+    chk.ob("tableau-layout", "get_tableau.return", len(set(ROLES)) == 5, gt.where, rtxt, "([a, b, c], Nstage, order) with five distinct values")
     n_cons = 0
     for (rel, qual), fi in src.funcs.items():
         for n in ast.walk(fi.node):
@@ -217,7 +226,8 @@ def run(chk):
                     continue
                 n_cons += 1
                 t = unparse(n.targets[0]).replace(" ", "")
-                chk.ob("tableau-layout", f"{qual}:{unparse(n.value)}", t in ("a,b,c", "(a,b,c)"), fi.where, t, "a, b, c", line=n.lineno)
+                names = [x.id for x in n.targets[0].elts if isinstance(x, ast.Name)]
+                chk.ob("tableau-layout", f"{qual}:{unparse(n.value)}", len(names) == 3 and len(set(names)) == 3, fi.where, t, "three names (matrix, weights, nodes)", line=n.lineno)
     inits = [n for n in ast.walk(init.node) if isinstance(n, ast.Assign) and "get_tableau" in unparse(n.value)]
     itxt = [unparse(n.targets[0]).replace(" ", "") for n in inits]
     chk.ob("tableau-layout", "RungeKutta.__init__", itxt == ["(self.tableau,self.stage,self.order)"] or itxt == ["self.tableau,self.stage,self.order"],
